@@ -283,27 +283,42 @@ func (s *Solver) GetModel() (Model, error) {
 	if strings.Contains(str, "(error") {
 		return nil, fmt.Errorf("solver %s: %s", s.Kind, strings.TrimSpace(str))
 	}
-	// parse pairs (|name| #x.. ) / (|name| #b..) / (|name| true)
-	i := 0
-	for {
-		j := strings.IndexByte(str[i:], '|')
-		if j < 0 {
-			break
+	// tokenise the s-expression: ( ) atoms, |quoted symbols|
+	var toks []string
+	for p := 0; p < len(str); {
+		ch := str[p]
+		switch {
+		case ch == '(' || ch == ')':
+			toks = append(toks, string(ch))
+			p++
+		case ch == ' ' || ch == '\n' || ch == '\t' || ch == '\r':
+			p++
+		case ch == '|':
+			q := strings.IndexByte(str[p+1:], '|')
+			if q < 0 {
+				p = len(str)
+				break
+			}
+			toks = append(toks, str[p+1:p+1+q])
+			p += q + 2
+		default:
+			q := p
+			for q < len(str) && !strings.ContainsRune("() \n\t\r", rune(str[q])) {
+				q++
+			}
+			toks = append(toks, str[p:q])
+			p = q
 		}
-		j += i
-		k := strings.IndexByte(str[j+1:], '|')
-		if k < 0 {
-			break
+	}
+	// expected shape: ( ( name value ) ( name value ) ... ) where value is an
+	// atom (#x.., #b.., true, false) or ( _ bvN W )
+	for p := 0; p+2 < len(toks); p++ {
+		if toks[p] != "(" || toks[p+1] == "(" || toks[p+1] == ")" {
+			continue
 		}
-		k += j + 1
-		name := str[j+1 : k]
-		rest := strings.TrimLeft(str[k+1:], " \t\n")
-		end := strings.IndexAny(rest, ") \n")
-		if end < 0 {
-			end = len(rest)
-		}
-		tok := rest[:end]
+		name := toks[p+1]
 		var val uint64
+		tok := toks[p+2]
 		switch {
 		case strings.HasPrefix(tok, "#x"):
 			val, _ = strconv.ParseUint(tok[2:], 16, 64)
@@ -313,15 +328,12 @@ func (s *Solver) GetModel() (Model, error) {
 			val = 1
 		case tok == "false":
 			val = 0
-		case strings.HasPrefix(tok, "(_"):
-			// (_ bv123 32)
-			f := strings.Fields(rest)
-			if len(f) >= 2 && strings.HasPrefix(f[1], "bv") {
-				val, _ = strconv.ParseUint(f[1][2:], 10, 64)
-			}
+		case tok == "(" && p+4 < len(toks) && toks[p+3] == "_" && strings.HasPrefix(toks[p+4], "bv"):
+			val, _ = strconv.ParseUint(toks[p+4][2:], 10, 64)
+		default:
+			continue
 		}
 		m[name] = val
-		i = k + 1 + end
 	}
 	return m, nil
 }
